@@ -64,6 +64,7 @@ def check(ctx):
     repo = ctx.repo
     docs = require_labels(SCREENING_LABELS)
     ctx.note("specification", {k: v[:160] for k, v in docs.items()})
+    ctx.rule("R13.8", "the area weights handed to the kernel carry mu0/(4 pi) K0/A0 xi^2 in 1/length_units (shared with C08 R08.1)", 1)
     ctx.rule("R13.7", "the screening iteration never writes into the arrays it is handed: a stored induced potential stays paired with its currents", 1)
     ctx.rule("R13.1", "numba kernel == eq. polyak line 1 (direct double sum with area weights)", 1)
     ctx.rule("R13.2", "cupy kernel == the same sum (accelerated == direct)", 1)
@@ -84,6 +85,11 @@ def check(ctx):
     call_sites(ctx, fg)
     polyak(ctx, fg)
     loop_discipline(ctx)
+    from ..report import Shared
+    from . import c08
+    c08.check(Shared(ctx, {"R08.1": "R13.8"}, only=lambda inst: inst.startswith("screening weights") or inst.startswith("dimension typing"),
+                     consequence="the stored induced potential is (mu0/4pi) x the Biot-Savart sum of the stored currents only in one unit system: "
+                                 "for a device stated in nm it is 1000 times too strong, and every step is still accepted"))
     from ..effects import input_purity
     input_purity(ctx, "R13.7", modules=("tdgl.solver.screening",), functions=("TDGLSolver.get_induced_vector_potential", "TDGLSolver.update"), min_functions=4, consequence="the induced vector potential stored in a finished Solution (handed in as seed) is overwritten by the next run's "
                                "iterate: the stored potential no longer reproduces the Biot-Savart sum of the stored currents")
